@@ -142,8 +142,17 @@ func anyFileNewerThan(files []string, givenTime time.Time) (bool, error) {
 }
 
 // OnError implements the Checker interface
-func (*TimestampChecker) OnError(t *ast.Task) error {
-	return nil
+func (checker *TimestampChecker) OnError(t *ast.Task) error {
+	if len(t.Sources) == 0 {
+		return nil
+	}
+	// Forget the marker written by the up-to-date check, so that an attempt
+	// that did not succeed is not mistaken for an up-to-date task
+	err := os.Remove(checker.timestampFilePath(t))
+	if os.IsNotExist(err) {
+		return nil
+	}
+	return err
 }
 
 func (checker *TimestampChecker) timestampFilePath(t *ast.Task) string {
